@@ -425,6 +425,9 @@ single
       {
         $$ = yr_re_node_create(RE_NODE_CLASS);
 
+        if ($$ == NULL)
+          yr_free($1);
+
         fail_if($$ == NULL, ERROR_INSUFFICIENT_MEMORY);
 
         $$->re_class = $1;
